@@ -25,6 +25,8 @@ import (
 	"syscall"
 	"time"
 
+	vegeta "github.com/tsenart/vegeta/v12/lib"
+
 	"vharness/gen"
 	"vharness/kit"
 	"vharness/run"
@@ -330,6 +332,7 @@ func commandRuns(c *run.Ctx, h *harness, r *kit.Rng) {
 	}
 	wg.Wait()
 	bad := 0
+	st := &kit.Stream{Name: "cmd"}
 	for i, k := range cases {
 		res := results[i]
 		if res.status != "ok" && res.status != "err" {
@@ -342,6 +345,77 @@ func commandRuns(c *run.Ctx, h *harness, r *kit.Rng) {
 		}
 		h.countCmd(k, res)
 		h.judgeCmd(k, res)
+		// the assembly against the model (one decoder per file or the command fails as a whole): whether
+		// a decoder is detected for an input is the library's answer, computed here for the kinds of
+		// input that are safe to decode in this process
+		if res.status == "ok" || res.status == "err" {
+			flags, safe := []string{}, true
+			ins := k.Inputs
+			if len(ins) == 0 {
+				ins = []cmdInput{{Stdin: true, Kind: "stdin"}}
+			}
+			for _, in := range ins {
+				b, _ := hex.DecodeString(in.Hex)
+				if in.Stdin {
+					b, _ = hex.DecodeString(k.StdinHex)
+				}
+				if strings.HasPrefix(in.Kind, "random") || strings.HasPrefix(in.Kind, "mutated") {
+					safe = false
+					break
+				}
+				if vegeta.DecoderFor(bytes.NewReader(b)) != nil {
+					flags = append(flags, "1")
+				} else {
+					flags = append(flags, "0")
+				}
+			}
+			if safe {
+				impl := fmt.Sprintf("decoders %d", len(ins))
+				if strings.Contains(res.stderr, "can't detect encoding") {
+					impl = "err"
+				}
+				st.Add(fmt.Sprintf("c16.assemble %d %s", len(flags), strings.Join(flags, " ")), impl)
+				h.s.Count("cmd:assembly compared with the model:" + strings.Fields(impl)[0])
+			}
+		}
+	}
+	// the library's combiner over zero decoders (what the commands never build): compared with the model only
+	for _, n := range []int{1, 2, 5} {
+		st.Add(fmt.Sprintf("c16.rrzero %d", n), rrZero(n))
+	}
+	st.Diff(c.Driver, h.s)
+}
+
+// rrZero: n calls of NewRoundRobinDecoder() with no decoder at all.
+func rrZero(n int) string {
+	done := make(chan string, 1)
+	go func() {
+		defer func() {
+			if recover() != nil {
+				done <- "panic"
+			}
+		}()
+		dec := vegeta.NewRoundRobinDecoder()
+		var outs []string
+		for i := 0; i < n; i++ {
+			var r vegeta.Result
+			err := dec.Decode(&r)
+			switch {
+			case err != nil:
+				outs = append(outs, "err")
+			case r.Equal(vegeta.Result{}):
+				outs = append(outs, "nothing")
+			default:
+				outs = append(outs, "got")
+			}
+		}
+		done <- strings.Join(outs, " ")
+	}()
+	select {
+	case o := <-done:
+		return o
+	case <-time.After(5 * time.Second):
+		return "timeout"
 	}
 }
 
